@@ -48,6 +48,13 @@ def file_names(sc, nfiles):
     return [f"f_{n:02d}.nc" for n in range(nfiles)]
 
 
+def _rect(sc):
+    """the loaded rectangle [i0, i1, j0, j1] of rho cells (limits counted from the upper end resolved)"""
+    sub = sc.get("subgrid") or [1, sc["imax"] - 1, 1, sc["jmax"] - 1]
+    i0, i1, j0, j1 = sub
+    return [i0 + (sc["imax"] if i0 < 0 else 0), i1 + (sc["imax"] if i1 < 0 else 0), j0 + (sc["jmax"] if j0 < 0 else 0), j1 + (sc["jmax"] if j1 < 0 else 0)]
+
+
 def write_files(sc, work):
     import numpy as np
     N, jmax, imax = sc["N"], sc["jmax"], sc["imax"]
@@ -70,7 +77,7 @@ def write_files(sc, work):
             W = _np.stack([((f + kk + ii + 2 * jj) % 5 - 2) / 64.0 for f in fnum[a:b]])
         name = os.path.join(work, fnames[n])
         make_roms(name, imax=imax, jmax=jmax, N=N, times=sc["ftimes"][a:b], mask=np.array(sc["M"], float),
-                  h=np.array(sc["H"], float), hc=0.0, Cs_r=np.array([num / den for num, den in cs_of(sc)]),
+                  h=np.array(sc["H"], float), hc=0.0, landfill=((1.0e37, _rect(sc)) if sc["fm"].get("c", 0) % 2 else None), Cs_r=np.array([num / den for num, den in cs_of(sc)]),
                   dx=(np.array(sc["dxarr"], float) if sc.get("dxarr") else sc.get("dx", 128.0) * (2.0 if (n > 0 and sc.get("grid_variant_in_later_files")) else 1.0)),
                   dy=(np.array(sc["dyarr"], float) if sc.get("dyarr") else sc.get("dy")),
                   # u and v packed with different scale factors and differently in every file: scale_factor with add_offset = 0, scale_factor alone
